@@ -31,8 +31,11 @@ func drawReadCfg(r *eng.Run, apps []int) ReadCfg {
 		cfg.Variant = r.T.Int(sim.LCfg, 4)
 		cfg.CheckUTF8 = true
 	}
-	if cfg.Extended && cfg.App != AppReader {
-		cfg.Extended = false
+	switch cfg.App {
+	case AppNextReader:
+		cfg.Extended = r.T.Chance(sim.LCfg, 1, 4)
+	case AppReadMessage, AppReadData:
+		cfg.Extended = cfg.Variant == 0 && r.T.Chance(sim.LCfg, 1, 4)
 	}
 	return cfg
 }
@@ -67,7 +70,10 @@ func topCall(cfg ReadCfg) string {
 func C04(r *eng.Run) {
 	cfg := drawReadCfg(r, []int{AppReader, AppReader, AppNextReader, AppReadMessage, AppReadData, AppReadData})
 	r.SetEntry(cfg.Name())
-	s := GenStream(r, StreamCfg{Recv: cfg.Side, MaxMsgs: 6, TextValid: true})
+	s := GenStream(r, StreamCfg{Recv: cfg.Side, MaxMsgs: 6, TextValid: true, Rsv23: cfg.Extended})
+	if cfg.Extended {
+		r.Probe("extended_state_rsv23_frames")
+	}
 	if cfg.App == AppReader {
 		switch r.T.Int(sim.LCfg, 3) {
 		case 1:
